@@ -2,6 +2,7 @@
 from pathlib import Path
 
 import histgen
+import vlib
 from vlib import Check
 from checks.exporter_common import run_histories, rng_for, exporter_models, generated_histories
 
@@ -9,11 +10,22 @@ from checks.exporter_common import run_histories, rng_for, exporter_models, gene
 def run(tier):
     chk = Check("C12", tier, "model_checking")
     chk.rule = ("model: all histories <= MaxOps over {storable/unstorable qr, two aec keys, mm, write_block, rotate, "
-                "set/add parameters} x block sizes; (G) every complete history of the model replayed on the real exporter; "
+                "set/add parameters} x block sizes; the flush rule on its counters for every limit as an inductive invariant "
+                "(Apalache/Z3); (G) every complete history of the model replayed on the real exporter; "
                 "(T) random histories with block sizes 0..5, hints that make records unstorable, parameter switches; "
                 "distinct = executions")
-    chk.assumptions = ["TLC + CommunityModules", "driver logging (harness/exp_driver.cpp)"]
+    chk.assumptions = ["TLC + CommunityModules", "Apalache 0.58 + Z3 (inductive invariant)", "driver logging (harness/exp_driver.cpp)"]
     exporter_models(chk, tier, selftests=("flush_late", "rot_drops_block"))
+    # the flush rule on its counters for EVERY max_block_items (also >= 2^32), as an inductive invariant (Apalache / Z3)
+    c = {"FBug": '"none"'}
+    res, verdict = vlib.apalache_check("ApaBlockSize", c, "IndInv", length=0, init="Init", label="c12apa")
+    chk.add_model("ApaBlockSize: Init => IndInv (symbolic, every limit)", res, verdict)
+    res, verdict = vlib.apalache_check("ApaBlockSize", c, "IndInv", length=1, init="IndInit", label="c12apa")
+    chk.add_model("ApaBlockSize: IndInv /\\ Next => IndInv' (symbolic, every limit)", res, verdict)
+    res, verdict = vlib.apalache_check("ApaBlockSize", c, "Vac", length=0, init="IndInit", label="c12apa")
+    chk.add_model("ApaBlockSize[Vac] (vacuity guard, must fail)", res, verdict, expect="violated")
+    res, verdict = vlib.apalache_check("ApaBlockSize", {"FBug": '"late"'}, "IndInv", length=1, init="IndInit", label="c12apa")
+    chk.add_model("ApaBlockSize[FBug=late] (self-test, must fail)", res, verdict, expect="violated")
     if tier == "quick":
         gen = generated_histories(chk, 3, "{1, 2}", limit=3000)
     else:
